@@ -4,6 +4,7 @@
    input : [linear; K; tbin_m; tbin_k; delta_m; delta_k;
             na; (m,k)*na; nb; (m,k)*nb; nq; (m,k)*nq]
            K >= every k and K >= 0: the common tick is 2^-K s
+           | [7; n; x_0 .. x_(n-1)]   (parabolic_max on an integer-valued 1-D array)
    output: [0]                                   a polyfit call was singular
          | 1 :: enc(ib after first pass) ++ enc(final ib) ++ [frag1; frag2]
              ++ [floor(slope * 10^18)] ++ enc(map (fun q => floor(fcn(q) * 10^12)) queries)
@@ -62,6 +63,10 @@ Definition frag2 (eps thr : Q) (f : a2b) (tsa tsb : list Q) (ib1 : list Z) : boo
 
 Definition run (inp : list Z) : list Z :=
   match inp with
+  | 7 :: n :: xs =>
+      (* parabolic_max on an integer-valued array: [floor(ipeak*10^12); floor(maxi*10^12)] *)
+      let '(ip, mx) := parabolic_max (map inject_Z (firstn (Z.to_nat n) xs)) in
+      [fixq (10 ^ 12) ip; fixq (10 ^ 12) mx]
   | lin :: K :: tm :: tk_ :: dm :: dk :: rest =>
       let linear := lin =? 1 in
       let den := Z.to_pos (2 ^ K) in
